@@ -1,15 +1,146 @@
 package main
 
+import (
+	"context"
+	"encoding/json"
+	"fmt"
+	"os"
+	"os/exec"
+	"path/filepath"
+	"strconv"
+	"strings"
+	"time"
+)
+
 // tryReplay attempts to reproduce a failed obligation against the real code using the
-// verifier's model. Drivers are registered per function.
+// verifier's (candidate) model. Drivers synthesise a concrete input from the model's scalar
+// choices and evaluate the violated clause at run time inside the real package.
 func tryReplay(eng *Engine, id string, o *Obligation, model map[string]string) (bool, map[string]interface{}) {
-	d, ok := replayDrivers[o.Func]
-	if !ok {
-		return false, map[string]interface{}{"status": "no replay driver for " + o.Func}
+	fn := o.Func
+	if i := strings.Index(fn, " /unconstrained"); i >= 0 {
+		fn = fn[:i]
 	}
-	return d(eng, id, o, model)
+	d, ok := replayDrivers[fn]
+	if !ok {
+		return false, map[string]interface{}{"status": "no replay driver for " + fn}
+	}
+	pkgRel, src, ok := d(o, model)
+	if !ok {
+		return false, map[string]interface{}{"status": "model does not determine a concrete input for the driver"}
+	}
+	confirmed, out := runOverlayTest(eng.repoDir, pkgRel, src, "TestZZReplay")
+	return confirmed, map[string]interface{}{"status": "replayed", "package": pkgRel, "test_source": src, "output": trunc(out, 4000), "confirmed": confirmed}
 }
 
-type replayDriver func(eng *Engine, id string, o *Obligation, model map[string]string) (bool, map[string]interface{})
+type replayDriver func(o *Obligation, model map[string]string) (pkgRel string, testSrc string, ok bool)
 
 var replayDrivers = map[string]replayDriver{}
+
+// runOverlayTest injects an in-package test by means of a build overlay (nothing is written
+// under the repository) and reports whether it printed REPLAY-CONFIRMED.
+func runOverlayTest(repo, pkgRel, src, testName string) (bool, string) {
+	d, err := os.MkdirTemp("/var/tmp", "govc-replay")
+	if err != nil {
+		return false, err.Error()
+	}
+	defer os.RemoveAll(d)
+	tf := filepath.Join(d, "zz_replay_test.go")
+	os.WriteFile(tf, []byte(src), 0o644)
+	absRepo, _ := filepath.Abs(repo)
+	ov := map[string]map[string]string{"Replace": {filepath.Join(absRepo, pkgRel, "zz_replay_test.go"): tf}}
+	ob, _ := json.Marshal(ov)
+	ovf := filepath.Join(d, "ov.json")
+	os.WriteFile(ovf, ob, 0o644)
+	ctx, cancel := context.WithTimeout(context.Background(), 120*time.Second)
+	defer cancel()
+	cmd := exec.CommandContext(ctx, "bash", "-c", fmt.Sprintf("ulimit -v 4000000; cd %q && go test -overlay %q -vet=off -timeout 60s -count=1 -run '^%s$' -v ./%s 2>&1", absRepo, ovf, testName, pkgRel))
+	out, _ := cmd.CombinedOutput()
+	s := string(out)
+	return strings.Contains(s, "REPLAY-CONFIRMED"), s
+}
+
+func modelInt(model map[string]string, key string) (int64, bool) {
+	v, ok := model[key]
+	if !ok {
+		return 0, false
+	}
+	v = strings.TrimSpace(v)
+	neg := false
+	if strings.HasPrefix(v, "(-") {
+		neg = true
+		v = strings.TrimSuffix(strings.TrimSpace(v[2:]), ")")
+	}
+	n, err := strconv.ParseInt(strings.TrimSpace(v), 10, 64)
+	if err != nil {
+		return 0, false
+	}
+	if neg {
+		n = -n
+	}
+	return n, true
+}
+
+func modelBool(model map[string]string, key string) (bool, bool) {
+	v, ok := model[key]
+	if !ok {
+		return false, false
+	}
+	return strings.TrimSpace(v) == "true", true
+}
+
+func init() {
+	replayDrivers["validation.ValidateLimit"] = func(o *Obligation, m map[string]string) (string, string, bool) {
+		lim, ok := modelInt(m, "p.limit")
+		if !ok {
+			return "", "", false
+		}
+		src := fmt.Sprintf(`package validation
+
+import "testing"
+
+func TestZZReplay(t *testing.T) {
+	limit := %d
+	got, err := ValidateLimit(limit)
+	bad := ""
+	if err == nil && !(1 <= got && got <= 100) { bad = "limit-range" }
+	if limit == 0 && !(got == 5 && err == nil) { bad = "limit-default" }
+	if (limit < 0 || limit > 100) && err == nil { bad = "limit-reject" }
+	if 1 <= limit && limit <= 100 && !(got == limit && err == nil) { bad = "limit-accept" }
+	if bad != "" { t.Logf("REPLAY-CONFIRMED: ValidateLimit(%%d) = (%%d, %%v) violates %%s", limit, got, err, bad) }
+}
+`, lim)
+		return "internal/validation", src, true
+	}
+	replayDrivers["(*history.SearchHistory).AddEntry"] = func(o *Obligation, m map[string]string) (string, string, bool) {
+		max, ok1 := modelInt(m, "(T.history.SearchHistory.MaxSize (select H.history.SearchHistory@0 p.sh))")
+		n, ok2 := modelInt(m, "(sl.len (T.history.SearchHistory.Entries (select H.history.SearchHistory@0 p.sh)))")
+		if !ok1 || !ok2 || n < 0 || n > 100000 {
+			return "", "", false
+		}
+		src := fmt.Sprintf(`package history
+
+import ("testing"; "fmt")
+
+func TestZZReplay(t *testing.T) {
+	for _, same := range []bool{false, true} {
+		func() {
+			sh := &SearchHistory{MaxSize: %d}
+			for i := 0; i < %d; i++ { sh.Entries = append(sh.Entries, SearchEntry{Query: fmt.Sprintf("q%%d", i)}) }
+			q := "new"
+			if same && len(sh.Entries) > 0 { q = sh.Entries[len(sh.Entries)-1].Query }
+			before := append([]SearchEntry(nil), sh.Entries...)
+			defer func() {
+				if r := recover(); r != nil { t.Logf("REPLAY-CONFIRMED: AddEntry panics with MaxSize=%%d len=%%d: %%v", sh.MaxSize, len(before), r) }
+			}()
+			sh.AddEntry(q, 3, "ctx", 0)
+			wf := sh.MaxSize >= 1 && len(sh.Entries) <= sh.MaxSize
+			newest := len(sh.Entries) >= 1 && sh.Entries[len(sh.Entries)-1].Query == q
+			if !newest { t.Logf("REPLAY-CONFIRMED: after AddEntry(MaxSize=%%d, len=%%d, repeat=%%v) the newest entry is not the recorded search", sh.MaxSize, len(before), same) }
+			if %v && !wf { t.Logf("REPLAY-CONFIRMED: after AddEntry(MaxSize=%%d, len=%%d) the history is not well-formed (len=%%d)", sh.MaxSize, len(before), len(sh.Entries)) }
+		}()
+	}
+}
+`, max, n, max >= 1 && n <= max)
+		return "internal/history", src, true
+	}
+}
